@@ -3,6 +3,7 @@
 inspired by:
 https://github.com/sutoiku/formula.js/blob/master/lib/date-time.js
 """
+from .._compat import string_types
 from . import dispatcher
 from . import error
 from . import utils
@@ -118,7 +119,7 @@ def DATEDIF(start_date, end_date, unit):
     end_date = utils.parse_date(end_date)
     if utils.any_is_error((start_date, end_date)):
         return error.NUM
-    if type(unit) != str:
+    if not isinstance(unit, string_types):  # a text of any class (a str subclass is text too)
         return error.NAME
     unit = unit.lower()
     if start_date == end_date:
